@@ -531,8 +531,9 @@ def shard(args):
                 wd = os.path.join(base, f'st{i}')
                 strace_run(res, wd, case)
                 shutil.rmtree(wd, ignore_errors=True)
-            if i == 1 and case[3]['jobs'] == 1 and not case[3]['big']:
-                anywhere_runs(res, base, case, r, args.get('anywhere', 6))
+            if i == 1 and case[3]['jobs'] == 1 and not case[3]['big'] and \
+                    (args['shard'] % 2 or args.get('anywhere', 0) > 5):
+                anywhere_runs(res, base, case, r, args.get('anywhere', 5))
             if i == 0 and args['shard'] % 2 == 0:
                 wd = os.path.join(base, f'par{i}')
                 prompt_write_run(res, wd, make_par_case(r))
@@ -549,7 +550,8 @@ def shard(args):
 def run(ctx):
     n = 3 if ctx.tier == 'quick' else 24
     pts = 10 if ctx.tier == 'quick' else 40
-    shards = [{'shard': i, 'n': n, 'points': pts}
+    shards = [{'shard': i, 'n': n, 'points': pts,
+               'anywhere': 5 if ctx.tier == 'quick' else 16}
               for i in range(common.NCPU)]
     results = common.run_shards('checks.c06', shards, timeout=3400)
     common.merge_shards(ctx, results)
